@@ -74,6 +74,10 @@ REGEX_TERMS = {
     # terminals that can swallow the ignorable blank on either side (the ignored text is then absorbable by the symbol
     # before it, by the one after it, or by neither)
     'AS': (r'a ?', ['a', 'a ']), 'SX': (r' ?x', ['x', ' x']),
+    # match lengths with a gap (on "aaba": 4, 2, 1 - never 3)
+    'G': (r'a+(?:ba+)?', ['a', 'aba', 'aaba']),
+    # a quoted string: ignorable text (blanks, a comment start) can lie inside the token, where nothing is being scanned
+    'Q': (r'c[^c]*c', ['cc', 'c#c', 'c ac']),
 }
 PREF_SENSITIVE = {'D': (r'a|ab', ['a', 'ab']), 'L': (r'a+?', ['a', 'aa'])}   # class (c): preferred != longest
 IGNORES = {'WS': (r' +', [' ', '  ']), 'CM': (r'#[^x]*', ['#', '# a']), 'WS1': (r'\s', [' '])}
@@ -211,6 +215,9 @@ EBNF_TERMS = [  # collision-free on purpose (distinct first characters, no share
     ('A', ['s', 'a', ''], ['a']), ('B', ['s', 'b', ''], ['b']), ('C', ['s', 'c', ''], ['c']),
     ('_U', ['s', 'u', ''], ['u']), ('X', ['x', 'x+', ''], ['x', 'xx']), ('N', ['x', '[0-9]', ''], ['7']),
     ('_V', ['x', 'v', ''], ['v']), ('K', ['s', 'k', 'i'], ['k', 'K']),
+    # named like the canonical names lark gives to the anonymous literals "+" and "," - but with another pattern: the
+    # literal must stay the literal
+    ('PLUS', ['s', 'p', ''], ['p']), ('COMMA', ['x', 'q', ''], ['q']),
 ]
 EBNF_LITS = ['+', ',', 'a', 'z', '(', ')']
 
@@ -308,14 +315,14 @@ def _ebnf(rng, profile='shaping', n_rules=None, p_rec=0.15, allow_templates=True
                 [alt([['p', 'x'], ['q', ['p', 'y'], '*', 0, 0]])],
                 [alt([['c', 'tm0', [['p', 'y']]], ['p', 'x']]), alt([LIT('z'), ['p', 'x']], 'tz1')],
             ])
-            rules.append(rule(t, body, mods=rng.choice(['', '', '?']), params=['x', 'y']))
+            rules.append(rule(t, body, mods=rng.choice(['', '', '?', '!']), params=['x', 'y']))
             continue
         body = rng.choice([
             [alt([LIT('('), ['p', 'x'], LIT(')')])],
             [alt([['p', 'x'], ['q', ['g', [alt([LIT(','), ['p', 'x']])]], '*', 0, 0]])],
             [alt([['p', 'x'], ['p', 'x']]), alt([LIT('z')], 'tz')],
         ])
-        rules.append(rule(t, body, mods=rng.choice(['', '', '?']), params=['x']))
+        rules.append(rule(t, body, mods=rng.choice(['', '', '?', '!']), params=['x']))
     terms = [term(n, p, ex=e) for n, p, e in tpool]
     ignore = []
     if rng.random() < p_ignore:
